@@ -91,3 +91,16 @@ __CPROVER_assigns()
 void h_c17_mapper_partition(void) { StaticChunkMapper m; size_type idx; c17_mapper_partition(&m, idx); }
 void h_StaticChunkMapper_call(void) { StaticChunkMapper m; size_type idx; StaticChunkMapper_call(&m, idx); }
 #endif
+
+/* C13 (static path): with chunk sizes that are multiples of the granularity (psi_derive's postcondition), every chunk the
+ * mapper hands out has a size that is a multiple of the granularity */
+void c13_static_granular(const StaticChunkMapper* m, size_type idx, uint32_t granularity)
+__CPROVER_requires(WF(m) && 0 <= idx && idx < m->numThreads && granularity >= 1)
+__CPROVER_requires(CS(m) % (mathint)granularity == 0 && SS(m) % (mathint)granularity == 0)
+__CPROVER_assigns()
+{
+  PairII a = StaticChunkMapper_call(m, idx);
+  /* "multiple of the granularity" with an explicit witness: size == w * granularity */
+  mathint w = (idx < m->transIdx ? CS(m) : SS(m)) / (mathint)granularity;
+  __CPROVER_assert((mathint)a.second - (mathint)a.first == w * (mathint)granularity, "static chunk size is a multiple of the granularity");
+}
